@@ -130,7 +130,8 @@ def bounded_sums(which):
         data = np.tensordot(modes, c, axes=(0, 0))
         nanmask = rng.random((H, W)) < 0.25
         data = data.copy()
-        data[nanmask] = np.nan
+        # "ignoring exactly the non-finite samples": NaN, +inf and -inf all mark a sample as invalid
+        data[nanmask] = rng.choice([np.nan, np.inf, -np.inf], size=int(nanmask.sum()), p=[0.6, 0.2, 0.2])
         if rng.random() < 0.3:
             data[0, :] = np.nan
         got = get(P + 'lstsq')(modes, data)
@@ -140,7 +141,8 @@ def bounded_sums(which):
         xx, yy = np.meshgrid(np.arange(W) - W // 2, np.arange(H) - H // 2)
         a, b = rng.standard_normal(2)
         z = (a * xx + b * yy).astype(float)          # fit_plane models tip and tilt only (no piston term)
-        z[rng.random((H, W)) < 0.2] = np.nan
+        bad = rng.random((H, W)) < 0.2
+        z[bad] = rng.choice([np.nan, np.inf, -np.inf], size=int(bad.sum()), p=[0.6, 0.2, 0.2])
         fit = get('prysm.interferogram.fit_plane')(xx.astype(float), yy.astype(float), z)
         fin = np.isfinite(z)
         check('plane-recovered', bool(np.allclose(fit[fin], z[fin], rtol=1e-8, atol=1e-8)))
